@@ -2,7 +2,7 @@ import SC.Proofs.KernSmall
 import SC.Proofs.KernBlocks
 import SC.Model.AsmShape
 import SC.Gen.AsmFacts
-import SC.Proofs.AsmAvxCount
+import SC.Proofs.AsmWrap
 import SC.Model.Spec
 /-!
 # C13 — SIMD byte kernels equal their scalar definition at every length and alignment
@@ -177,7 +177,55 @@ theorem whole_bodies (mem : Mem) (base len : Nat) (c : UInt8) (s : Asm.St) (f : 
 example : ∃ s : Asm.St, s.avx2 = true ∧ s.r .SI = 4096 ∧ s.r .BX = 200 ∧ s.r .AX % 256 = (0x41 : UInt8).toNat ∧
     s.out = none ∧ s.loads = [] :=
   ⟨{ r := fun q => match q with | .SI => 4096 | .BX => 200 | .AX => 0x41 | _ => 0, x := fun _ _ => 0, y := fun _ _ => 0,
-     zf := false, cf := false, lt := false, avx2 := true, mem := fun _ => 0, loads := [], out := none }, rfl, rfl, rfl, rfl, rfl, rfl⟩
+     zf := false, cf := false, lt := false, avx2 := true, popcnt := true, args := fun _ => 0, tail := none, mem := fun _ => 0, loads := [], out := none }, rfl, rfl, rfl, rfl, rfl, rfl⟩
+
+/-- **The six assembly entry points, from the Go caller's argument frame to the stored result.**  `Gen.Asm.wrap_*` are the
+ABI wrappers (`TEXT ·IndexByte` …) regenerated from the `.s` files; `Asm.call` runs a wrapper and then the kernel body it
+tail-calls.  With the slice/string base and length and the needle byte in the frame (the upper bits of `AX`, every other
+register, flag and vector lane arbitrary), the call stores
+
+* `IndexByte` / `IndexByteString`: the least `i < len` with `S.byteEqFold c (mem (base+i))`, else −1 — the wrapper's
+  letter test (`LEAL -65(AX), CX; CMPB CL, $25; JLS; ADDL $-97, AX; CMPB AL, $25; JHI`) selects the `ORL/POR $0x20` body
+  exactly for ASCII letters;
+* `Count` / `CountString` (POPCNT present): the number of such `i`; without POPCNT the wrapper leaves to the Go fallback
+  `countGeneric[String]` before touching a register;
+* `IndexByteNonASCII` / `IndexNonASCII`: the least `i` with `mem (base+i) ≥ 0x80`, else −1;
+
+for every memory, base address, length, needle byte and either value of the AVX2 flag, and every byte loaded lies in a page
+holding a byte of the argument. -/
+theorem kernel_entries (mem : Mem) (base len : Nat) (c : UInt8) (s : Asm.St) (f : Nat)
+    (hb : base + len + 128 < 2 ^ 62) (hc : s.args "c" % 256 = c.toNat)
+    (hmem : s.mem = mem) (hout : s.out = none) (hl : s.loads = []) (hf : 15 * (len + 1) + 80 ≤ f) :
+    (s.args "b_base" = base → s.args "b_len" = len →
+      ((Asm.call Gen.Asm.wrap_IndexByte f s).out = some (specIndex (S.byteEqFold c) mem base len) ∧
+        Asm.Safe base len (Asm.call Gen.Asm.wrap_IndexByte f s).loads) ∧
+      (s.popcnt = true →
+        (Asm.call Gen.Asm.wrap_Count f s).out = some ((specCount (S.byteEqFold c) mem base len : Nat) : Int) ∧
+        Asm.Safe base len (Asm.call Gen.Asm.wrap_Count f s).loads) ∧
+      ((Asm.call Gen.Asm.wrap_IndexByteNonASCII f s).out = some (specIndex (fun b => decide (b ≥ 0x80)) mem base len) ∧
+        Asm.Safe base len (Asm.call Gen.Asm.wrap_IndexByteNonASCII f s).loads)) ∧
+    (s.args "s_base" = base → s.args "s_len" = len →
+      ((Asm.call Gen.Asm.wrap_IndexByteString f s).out = some (specIndex (S.byteEqFold c) mem base len) ∧
+        Asm.Safe base len (Asm.call Gen.Asm.wrap_IndexByteString f s).loads) ∧
+      (s.popcnt = true →
+        (Asm.call Gen.Asm.wrap_CountString f s).out = some ((specCount (S.byteEqFold c) mem base len : Nat) : Int) ∧
+        Asm.Safe base len (Asm.call Gen.Asm.wrap_CountString f s).loads) ∧
+      ((Asm.call Gen.Asm.wrap_IndexNonASCII f s).out = some (specIndex (fun b => decide (b ≥ 0x80)) mem base len) ∧
+        Asm.Safe base len (Asm.call Gen.Asm.wrap_IndexNonASCII f s).loads)) ∧
+    (s.popcnt = false →
+      (Asm.run Gen.Asm.wrap_Count f (Asm.block Gen.Asm.wrap_Count "entry") s).tail = some "countGeneric" ∧
+      (Asm.run Gen.Asm.wrap_CountString f (Asm.block Gen.Asm.wrap_CountString "entry") s).tail = some "countGenericString") := by
+  have hB : base < 2 ^ 64 := by omega
+  have hL : len < 2 ^ 64 := by omega
+  have hf16 : 16 ≤ f := by omega
+  refine ⟨fun h1 h2 => ⟨?_, fun hp => ?_, ?_⟩, fun h1 h2 => ⟨?_, fun hp => ?_, ?_⟩, fun hp => ?_⟩
+  · exact Asm.entry_index _ mem base len c s f (Asm.wrap_IndexByte_dispatch s c base len f h1 h2 hc hB hL hf16) hb hmem hout hl hf
+  · exact Asm.entry_count _ mem base len c s f (Asm.wrap_Count_dispatch s c base len f h1 h2 hc hB hL hp hf16) hb hmem hout hl hf
+  · exact Asm.entry_nonascii _ mem base len s f ((Asm.wrap_NonASCII_dispatch s base len f hB hL (by omega)).1 h1 h2) hb hmem hout hl hf
+  · exact Asm.entry_index _ mem base len c s f (Asm.wrap_IndexByteString_dispatch s c base len f h1 h2 hc hB hL hf16) hb hmem hout hl hf
+  · exact Asm.entry_count _ mem base len c s f (Asm.wrap_CountString_dispatch s c base len f h1 h2 hc hB hL hp hf16) hb hmem hout hl hf
+  · exact Asm.entry_nonascii _ mem base len s f ((Asm.wrap_NonASCII_dispatch s base len f hB hL (by omega)).2 h1 h2) hb hmem hout hl hf
+  · exact Asm.wrap_Count_nopopcnt s f hp (by omega)
 
 /-- the letter kernels compute the library's fold-equality of bytes: for an ASCII letter `c`, `(b ||| 0x20) == (c ||| 0x20)` is
     `S.byteEqFold c b` -/
@@ -204,11 +252,20 @@ namespace C13
     block, and a 130-byte count using the masked 64-byte tail -/
 example : (Asm.run Gen.Asm.body_indexbytebody 200 (Asm.block Gen.Asm.body_indexbytebody "entry")
     { r := fun q => match q with | .SI => 4096 | .BX => 70 | .AX => 0x41 | _ => 0, x := fun _ _ => 0, y := fun _ _ => 0,
-      zf := false, cf := false, lt := false, avx2 := true, mem := fun i => if i = 4096 + 66 then 0x41 else 0, loads := [], out := none }).out
+      zf := false, cf := false, lt := false, avx2 := true, popcnt := true, args := fun _ => 0, tail := none, mem := fun i => if i = 4096 + 66 then 0x41 else 0, loads := [], out := none }).out
     = some 66 := by decide +kernel
 example : (Asm.run Gen.Asm.body_countbodyCase 400 (Asm.block Gen.Asm.body_countbodyCase "entry")
     { r := fun q => match q with | .SI => 4096 | .BX => 130 | .AX => 0x41 | _ => 0, x := fun _ _ => 0, y := fun _ _ => 0,
-      zf := false, cf := false, lt := false, avx2 := true,
+      zf := false, cf := false, lt := false, avx2 := true, popcnt := true, args := fun _ => 0, tail := none,
       mem := fun i => if i = 4096 + 3 ∨ i = 4096 + 64 ∨ i = 4096 + 129 then 0x61 else if i = 4096 + 130 then 0x41 else 0, loads := [], out := none }).out
     = some 3 := by decide +kernel
+end C13
+
+namespace C13
+/-- a concrete call through an ABI wrapper: needle `k` (junk above the low byte), data with `K` at offset 35 → the wrapper
+    takes the letter body, AVX2 path, result 35 -/
+example : (Asm.call Gen.Asm.wrap_IndexByte 800
+    { r := fun _ => 0xDEAD, x := fun _ _ => 0xEE, y := fun _ _ => 0xEE, zf := true, cf := true, lt := true, avx2 := true, popcnt := true,
+      args := fun n => if n == "b_base" then 8192 else if n == "b_len" then 40 else if n == "c" then 0xAB00 + 0x6B else 0,
+      tail := none, mem := fun i => if i = 8192 + 35 then 0x4B else 0x2E, loads := [], out := none }).out = some 35 := by decide +kernel
 end C13
